@@ -56,6 +56,7 @@ const (
 	GMultiRedelSlash  = "g:several_delegators_redelegate_then_slash"
 	GPackBucket       = "g:several_undelegations_of_one_delegator_in_one_block"
 	GDrainAsset       = "g:every_position_of_an_asset_exits"
+	GWeightChangeOut  = "g:weight_change_while_a_staked_validator_is_out_of_the_set"
 )
 
 const (
@@ -725,6 +726,67 @@ func (g *Gen) Step() {
 		} else {
 			p := new(big.Int).Quo(x.Post().Vals[a].Tokens.BigInt(), big.NewInt(1_000_000)).Int64()
 			x.Apply(Op{K: KSlash, V: a, Frac: g.frac(), Power: p, Age: int64(g.intn("age", 2))})
+		}
+	case GWeightChangeOut:
+		// a validator carrying alliance stake (preferably of two assets) earns rewards, leaves the
+		// active set (jailed) with rewards still pending in x/distribution, then the weight of one of
+		// its assets changes and the positions on it claim
+		var cands []int
+		for i, v := range s.Vals {
+			n := 0
+			for _, sh := range v.ValShares {
+				if sh.IsPositive() {
+					n++
+				}
+			}
+			if n >= 1 && v.Status == 3 && !v.Jailed {
+				cands = append(cands, i)
+				if n >= 2 {
+					cands = append(cands, i, i)
+				}
+			}
+		}
+		if len(cands) == 0 || len(s.AssetOrder) == 0 {
+			x.Apply(Op{K: KDelegate, D: g.del(), V: g.intn("v", nv), Denom: g.anyDenom("denom"), Amt: g.freshAmount("amt")})
+			return
+		}
+		v := cands[g.intn("wc-v", len(cands))]
+		for _, dn := range s.AssetOrder {
+			if sh, ok := s.Vals[v].ValShares[dn]; (!ok || !sh.IsPositive()) && g.pct("wc-second-asset", 70) {
+				x.Apply(Op{K: KDelegate, D: g.del(), V: v, Denom: dn, Amt: g.freshAmount("amt")})
+			}
+		}
+		x.Apply(Op{K: KBlock, Dt: g.dt(), Fees: g.fees()})
+		x.Apply(Op{K: KBlock, Dt: sec, Fees: "1000000" + FeeDenom})
+		x.Apply(Op{K: KJail, V: v})
+		for i, n := 0, 1+g.intn("wc-blocks", 3); i < n; i++ {
+			x.Apply(Op{K: KBlock, Dt: sec, Fees: g.fees()})
+		}
+		cur := x.Post()
+		var staked []string
+		for _, dn := range cur.AssetOrder {
+			if sh, ok := cur.Vals[v].ValShares[dn]; ok && sh.IsPositive() {
+				staked = append(staked, dn)
+			}
+		}
+		if len(staked) == 0 {
+			return
+		}
+		dn := staked[g.intn("wc-denom", len(staked))]
+		a := cur.Assets[dn]
+		up := g.createOp(dn, "auth")
+		up.K, up.Legacy = KUpdate, false
+		up.TakeRate = a.TakeRate.String()
+		up.RWMin, up.RWMax = "0", "100"
+		up.RW = g.pickS("wc-rw", []string{"0.1", "0.5", "2", "9"})
+		x.Apply(up)
+		if g.pct("wc-block-before-claim", 30) {
+			x.Apply(Op{K: KBlock, Dt: sec})
+		}
+		for _, d := range x.Post().Dels {
+			if d.V == v && d.D >= 0 && d.D != 100 {
+				x.Apply(Op{K: KClaim, D: d.D, V: d.V, Denom: d.Denom})
+			}
 		}
 	case GExportAtBoundary:
 		if x.Twin != nil || len(x.Log) < 14 {
